@@ -255,6 +255,11 @@ func (gs *genStats) check(rep *common.Report, names []string, prelude string, b 
 	}
 	for i := range b.Hist {
 		c := &b.Hist[i]
+		if 2*i+1 >= len(obs) && dead[c.G] {
+			// the driver program ended inside a call on an instance that had already diverged: a consequence
+			// of that divergence (the state of that generator is unknown), nothing further is observable
+			return
+		}
 		if dead[c.G] {
 			continue
 		}
@@ -294,7 +299,7 @@ func (gs *genStats) check(rep *common.Report, names []string, prelude string, b 
 			}
 		}
 		if lLine != expL {
-			report(act+"log", i, "events recorded by the bodies during this call")
+			report(act+logDivergence(c.Log, lLine), i, "events recorded by the bodies during this call")
 			dead[c.G] = true
 		}
 	}
@@ -314,6 +319,58 @@ func agrees(b *behRec, r *pyrun.Result) bool {
 	return true
 }
 
+type obsEvent struct{ k, v string }
+
+// parseLog splits a printed event log [['k', v], ...] into its events
+func parseLog(line string) ([]obsEvent, bool) {
+	if len(line) < 2 || line[0] != '[' || line[len(line)-1] != ']' {
+		return nil, false
+	}
+	inner := line[1 : len(line)-1]
+	if inner == "" {
+		return nil, true
+	}
+	if len(inner) < 2 || inner[0] != '[' || inner[len(inner)-1] != ']' {
+		return nil, false
+	}
+	var evs []obsEvent
+	for _, part := range strings.Split(inner[1:len(inner)-1], "], [") {
+		if len(part) < 2 || part[0] != '\'' {
+			return nil, false
+		}
+		j := strings.Index(part[1:], "', ")
+		if j < 0 {
+			return nil, false
+		}
+		evs = append(evs, obsEvent{part[1 : 1+j], part[1+j+3:]})
+	}
+	return evs, true
+}
+
+// logDivergence names the first difference between the demanded and the observed events of one call:
+// the kind of event (l = log statement, r = value received by `x = yield`, yf = value of `yield from`) and
+// whether it is missing, extra, of another kind or carries another value
+func logDivergence(exp []event, obsLine string) string {
+	obs, ok := parseLog(obsLine)
+	if !ok {
+		return "log:garbled"
+	}
+	for i := range exp {
+		switch {
+		case i >= len(obs):
+			return "log:missing-" + exp[i].K
+		case obs[i].k != exp[i].K:
+			return "log:exp=" + exp[i].K + "/obs=" + obs[i].k
+		case obs[i].v != pyVal(exp[i].V):
+			return "log:" + exp[i].K + "-value"
+		}
+	}
+	if len(obs) > len(exp) {
+		return "log:extra-" + obs[len(exp)].k
+	}
+	return "log:garbled"
+}
+
 func topNames(names []string, top []int) []string {
 	r := make([]string, len(top))
 	for i, t := range top {
@@ -323,90 +380,111 @@ func topNames(names []string, top []int) []string {
 }
 
 type genRun struct {
-	name, cfg, simulate string
-	depth               int
-	emits               bool
+	name, cfg string
+	simTotal  int // > 0: -simulate, this many traces in total
+	depth     int
+	emits     bool
+	tlcW, pyW int // TLC workers, replay workers
 }
 
 func runGen(env *common.Env, rep *common.Report) *genStats {
 	gs := &genStats{byPreOut: newCounter(), byBody: newCounter()}
-	runs := []genRun{{name: "yield-from transparency (lock-step)", cfg: "gen_lock.cfg"}}
+	runs := []genRun{
+		{name: "yield-from transparency (lock-step, small steps)", cfg: "gen_lock.cfg", tlcW: 1},
+		{name: "small-step reading, one instance", cfg: "gen_micro.cfg", tlcW: 1},
+	}
+	big, small := share(env, 2, 2), share(env, 4, 2)
 	if env.Thorough() {
 		runs = append(runs,
-			genRun{name: "exhaustive 2 instances", cfg: "gen_thorough.cfg", emits: true},
-			genRun{name: "sampled 3 instances", cfg: "gen_sim3.cfg", simulate: "num=40000", depth: 400, emits: true})
+			genRun{name: "exhaustive 2 instances x 5 calls", cfg: "gen_thorough.cfg", emits: true, tlcW: big, pyW: small},
+			genRun{name: "sampled 3 instances x 6 calls", cfg: "gen_sim3.cfg", simTotal: 30000, depth: 20, emits: true, tlcW: small, pyW: share(env, 8, 1)})
 	} else {
 		runs = append(runs,
-			genRun{name: "exhaustive 2 instances", cfg: "gen_quick.cfg", emits: true},
-			genRun{name: "sampled 3 instances", cfg: "gen_sim3.cfg", simulate: "num=3000", depth: 400, emits: true})
+			genRun{name: "exhaustive 2 instances x 4 calls", cfg: "gen_quick.cfg", emits: true, tlcW: big, pyW: small},
+			genRun{name: "sampled 3 instances x 6 calls", cfg: "gen_sim3.cfg", simTotal: 3000, depth: 20, emits: true, tlcW: small, pyW: share(env, 8, 1)})
 	}
 	seen := map[string]bool{}
-	var seenMu sync.Mutex
+	var mu sync.Mutex // guards seen, gs counters, gs.runs
+	var all sync.WaitGroup
 	for _, gr := range runs {
-		var hdr *bodiesRec
-		var prelude string
-		jobs := make(chan *behRec, 8192)
-		var wg sync.WaitGroup
-		var nBeh int64
-		start := func() {
-			for w := 0; w < replayWorkers(env); w++ {
-				wg.Add(1)
-				go func() {
-					defer wg.Done()
-					pw := newPyWorker(prelude)
-					for b := range jobs {
-						if pw.n >= 4000 { // fresh context now and then: bounded memory, no state carried far
-							pw.ctx.Close()
+		gr := gr
+		all.Add(1)
+		go func() {
+			defer all.Done()
+			gs.one(env, rep, gr, seen, &mu)
+		}()
+	}
+	all.Wait()
+	return gs
+}
+
+func (gs *genStats) one(env *common.Env, rep *common.Report, gr genRun, seen map[string]bool, mu *sync.Mutex) {
+	simulate := ""
+	if gr.simTotal > 0 {
+		// -simulate num=N generates N traces per TLC worker: scale so that the sample size does not depend on the machine
+		simulate = "num=" + strconv.Itoa((gr.simTotal+gr.tlcW-1)/gr.tlcW)
+	}
+	var hdr *bodiesRec
+	var prelude string
+	jobs := make(chan *behRec, 8192)
+	var wg sync.WaitGroup
+	var nBeh int64
+	start := func() {
+		for w := 0; w < gr.pyW; w++ {
+			wg.Add(1)
+			go func() {
+				defer wg.Done()
+				pw := newPyWorker(prelude)
+				for b := range jobs {
+					if pw.n >= 4000 { // fresh context now and then: bounded memory, no state carried far
+						pw.ctx.Close()
+						pw.reset()
+					}
+					pw.n++
+					prog := genProgram(b)
+					r := pw.ctx.Exec(prog, execTimeout)
+					if !agrees(b, r) {
+						// a candidate divergence is re-run once in a fresh context before it is believed
+						pw.reset()
+						r = pw.ctx.Exec(prog, execTimeout)
+						if r.TimedOut {
 							pw.reset()
-						}
-						pw.n++
-						prog := genProgram(b)
-						r := pw.ctx.Exec(prog, execTimeout)
-						if !agrees(b, r) {
-							// a candidate divergence is re-run once in a fresh context before it is believed
-							pw.reset()
-							r = pw.ctx.Exec(prog, execTimeout)
-							if r.TimedOut {
-								pw.reset()
-							}
-						}
-						gs.check(rep, hdr.Names, prelude, b, r)
-						if atomic.AddInt64(&nBeh, 1)%9973 == 1 {
-							rep.Sample(map[string]interface{}{"part": "PyGen", "templates": topNames(hdr.Names, b.Top), "program": strings.TrimSpace(prog),
-								"expected_after_each_call": expectedLines(b)})
 						}
 					}
-				}()
-			}
+					gs.check(rep, hdr.Names, prelude, b, r)
+					if atomic.AddInt64(&nBeh, 1)%9973 == 1 {
+						rep.Sample(map[string]interface{}{"part": "PyGen", "templates": topNames(hdr.Names, b.Top), "program": strings.TrimSpace(prog),
+							"expected_after_each_call": expectedLines(b)})
+					}
+				}
+			}()
 		}
-		res := env.MustTLC(common.TLCRun{Dir: "C05", Module: "MCGen", Config: gr.cfg, Simulate: gr.simulate, Depth: gr.depth, Seed: env.Seed,
-			Timeout: 14 * time.Minute, OnLine: func(rec []byte) {
-				if !gr.emits {
-					return
+	}
+	res := env.MustTLC(common.TLCRun{Dir: "C05", Module: "MCGen", Config: gr.cfg, Simulate: simulate, Depth: gr.depth, Seed: env.Seed,
+		Workers: gr.tlcW, Timeout: 14 * time.Minute, OnLine: func(rec []byte) {
+			if !gr.emits {
+				return
+			}
+			if hdr == nil {
+				h := &bodiesRec{}
+				if err := json.Unmarshal(rec, h); err != nil || h.Rec != "bodies" {
+					common.Inconclusive("property=C05 expected the bodies record first, got %.200s", rec)
 				}
-				if hdr == nil {
-					h := &bodiesRec{}
-					if err := json.Unmarshal(rec, h); err != nil || h.Rec != "bodies" {
-						common.Inconclusive("property=C05 expected the bodies record first, got %.200s", rec)
-					}
-					hdr = h
-					prelude = genPrelude(h)
-					start()
-					return
-				}
-				b := &behRec{}
-				if err := json.Unmarshal(rec, b); err != nil || b.Rec != "beh" {
-					common.Inconclusive("property=C05 bad behaviour record %.200s", rec)
-				}
-				prog := genProgram(b)
-				seenMu.Lock()
-				dup := seen[prog]
-				seen[prog] = true
-				seenMu.Unlock()
-				gs.behaviours++
-				if dup {
-					return // a simulated history that was already replayed
-				}
+				hdr = h
+				prelude = genPrelude(h)
+				start()
+				return
+			}
+			b := &behRec{}
+			if err := json.Unmarshal(rec, b); err != nil || b.Rec != "beh" {
+				common.Inconclusive("property=C05 bad behaviour record %.200s", rec)
+			}
+			prog := genProgram(b)
+			mu.Lock()
+			dup := seen[prog]
+			seen[prog] = true
+			gs.behaviours++
+			if !dup {
 				gs.distinct++
 				nontrivial := false
 				for i := range b.Hist {
@@ -421,22 +499,27 @@ func runGen(env *common.Env, rep *common.Report) *genStats {
 				if nontrivial {
 					gs.distinctNontrivial++
 				}
-				jobs <- b
-			}})
-		close(jobs)
-		wg.Wait()
-		if len(res.Violations) > 0 || !res.Finished {
-			common.Inconclusive("property=C05 the specification itself fails (spec/C05 MCGen %s): %v\n%s", gr.cfg, res.Violations, res.Stdout)
-		}
-		if gr.emits && (hdr == nil || atomic.LoadInt64(&nBeh) == 0) {
-			common.Inconclusive("property=C05 TLC emitted no behaviour for %s", gr.cfg)
-		}
-		rep.AddTLC(res)
-		gs.runs = append(gs.runs, map[string]interface{}{"run": gr.name, "config": gr.cfg, "simulate": gr.simulate, "states": res.Distinct,
-			"generated": res.Generated, "behaviours_replayed": atomic.LoadInt64(&nBeh), "tlc_wall_s": res.Wall.Seconds()})
-		fmt.Printf("gen %-40s states=%d behaviours=%d at %.1fs\n", gr.cfg, res.Distinct, atomic.LoadInt64(&nBeh), time.Since(env.Start).Seconds())
+			}
+			mu.Unlock()
+			if dup {
+				return // a simulated history that was already replayed
+			}
+			jobs <- b
+		}})
+	close(jobs)
+	wg.Wait()
+	if len(res.Violations) > 0 || !res.Finished {
+		common.Inconclusive("property=C05 the specification itself fails (spec/C05 MCGen %s): %v\n%s", gr.cfg, res.Violations, res.Stdout)
 	}
-	return gs
+	if gr.emits && (hdr == nil || atomic.LoadInt64(&nBeh) == 0) {
+		common.Inconclusive("property=C05 TLC emitted no behaviour for %s", gr.cfg)
+	}
+	rep.AddTLC(res)
+	mu.Lock()
+	gs.runs = append(gs.runs, map[string]interface{}{"run": gr.name, "config": gr.cfg, "simulate": simulate, "states": res.Distinct,
+		"generated": res.Generated, "behaviours_replayed": atomic.LoadInt64(&nBeh), "tlc_wall_s": res.Wall.Seconds()})
+	mu.Unlock()
+	fmt.Printf("gen %-40s states=%d behaviours=%d at %.1fs\n", gr.cfg, res.Distinct, atomic.LoadInt64(&nBeh), time.Since(env.Start).Seconds())
 }
 
 func expectedLines(b *behRec) []string {
